@@ -121,6 +121,7 @@ pub fn judge(
                 return Some(("wrong_result", format!("returned {:?}, reference {:?}", got, exp)));
             }
         }
+        Sem::FwdAll => unreachable!("sequence subjects are judged in check_hay"),
         Sem::Cand => {
             let first = oracle::find_sub(hay, needle);
             match (got, first) {
@@ -304,17 +305,35 @@ pub fn check_hay(
     r.states += 1;
     let occurs = oracle::find_sub(hay, needle);
     for s in subjects {
+        // emulated NEON / simd128 builds: every vector load of the real ISA
+        // modules is monitored against the haystack
+        #[cfg(all(feature = "vn", any(feature = "neon", feature = "simd128")))]
+        memchr::verif::set_region(hay.as_ptr(), unsafe { hay.as_ptr().add(hay.len()) });
         let a0 = alloc::allocs();
         let got = guarded(|| s.built.run(hay));
         let a1 = alloc::allocs();
         #[cfg(feature = "vn")]
-        let stats = if s.built.is_vn() { Some(memchr::verif::take_stats()) } else { None };
+        let stats = if s.built.is_vn() || cfg!(any(feature = "neon", feature = "simd128")) {
+            Some(memchr::verif::take_stats())
+        } else {
+            None
+        };
         let mut problem: Option<(&'static str, String)> = None;
         match got {
             Err(msg) => problem = Some(("panic", format!("panicked: {}", msg))),
             Ok(Ran::NotApplicable) => {
                 r.bump("not-applicable");
                 continue;
+            }
+            Ok(Ran::Seq(v, inert)) => {
+                r.evaluations += 1;
+                if inert {
+                    r.bump("iterations that ended with the prefilter inert");
+                }
+                let exp = oracle::find_all(hay, needle);
+                if v != exp {
+                    problem = Some(("wrong_result", format!("find_iter yielded {:?}, reference {:?}", v, exp)));
+                }
             }
             Ok(Ran::Pos(p)) => {
                 r.evaluations += 1;
